@@ -3,3 +3,5 @@ import AL.Props.C12
 #print axioms AL.C12.unknown_key_allows_nothing
 #print axioms AL.C12.special_transpose
 #print axioms AL.C12.table_names
+#print axioms AL.C12.not_allowed_iff
+#print axioms AL.C12.special_not_allowed_sound
